@@ -54,9 +54,10 @@ Data == [r |-> RRec("r"), rp |-> RRec("rp"),
          k |-> KRec("k"), ks |-> A(<<KRec("ks[0]"), KRec("ks[1]")>>),
          ta |-> A(<<T2("ta[0]"), T2("ta[1]")>>), tb |-> A(<<T2("tb[0]"), T2("tb[1]")>>),
          pks |-> [t |-> "pslice", xs |-> <<KRec("pks[0]"), KRec("pks[1]")>>],    \* a pointer to a slice: like a pointer to a map
+         im |-> [t |-> "imap", m |-> [one |-> KRec("im[1]")]],                  \* map[int]K with the key 1
          pm |-> PMap([a |-> KRec("pm[a]")]), pms |-> A(<<PMap([a |-> KRec("pms[0][a]")])>>),
          i0 |-> I(0), i1 |-> I(1), i9 |-> I(9), ka |-> S(<<"a">>), kz |-> S(<<"z", "z">>)]
-Roots == {"r", "rp", "rs", "rm", "k", "ks", "ta", "tb", "pks", "pm", "pms"}
+Roots == {"r", "rp", "rs", "rm", "k", "ks", "ta", "tb", "pks", "pm", "pms", "im"}
 
 Unexported == "secret"
 VARIABLES e, v, n,     \* path expression, value reached ([t |-> "fail"] once navigation cannot be completed), steps
@@ -88,12 +89,13 @@ IndexStep(ix, k) == /\ e' = Idx(e, ix)
 KeyStep(kx, key) == /\ e' = Idx(e, kx)
                     /\ v' = IF v.t = "map" THEN (IF key \in DOMAIN v.m THEN v.m[key] ELSE Nil)
                             ELSE IF v.t = "pmap" THEN [t |-> "unspecv"] ELSE Failed
+WrongKeyStep(kx) == e' = Idx(e, kx) /\ v' = Failed
 CallStep(m) == /\ e' = MCall(e, m)
                /\ v' = IF v.t = "rec" /\ m \in DOMAIN v.m THEN v.m[m] ELSE Failed
 
 Extend ==
   /\ fam = "walk" /\ UNCHANGED fam
-  /\ n < MaxSteps /\ v # Failed /\ v.t \in {"rec", "arr", "map", "nil", "pmap", "pslice"}
+  /\ n < MaxSteps /\ v # Failed /\ v.t \in {"rec", "arr", "map", "nil", "pmap", "pslice", "imap"}
   /\ n' = n + 1
   /\ \/ v.t = "rec" /\ \E f \in DOMAIN v.f \cup {"Nope", Unexported} : FieldStep(f)
      \/ v.t = "rec" /\ \E m \in DOMAIN v.m \cup {"Nope"} : CallStep(m)
@@ -101,6 +103,12 @@ Extend ==
      \/ v.t = "arr" /\ \/ \E k \in 0..2 : IndexStep(IntL(k), k)
                        \/ IndexStep(Id("i0"), 0) \/ IndexStep(Id("i1"), 1) \/ IndexStep(Id("i9"), 9)
      \/ v.t = "pslice" /\ (IndexStep(IntL(0), 0) \/ IndexStep(Id("i1"), 1) \/ IndexStep(Id("i9"), 9))
+     \* an index of another type than the map's keys is not a key, even where Go could CONVERT it to one that exists:
+     \* 97 / 1.5 on a string-keyed map with the key "a", 1.5 / "1" on an int-keyed map with the key 1
+     \/ v.t = "map" /\ (WrongKeyStep(IntL(97)) \/ WrongKeyStep(Flt(3, 1)))
+     \/ v.t = "imap" /\ \/ (e' = Idx(e, IntL(1)) /\ v' = v.m["one"])
+                        \/ (e' = Idx(e, IntL(2)) /\ v' = Nil)
+                        \/ WrongKeyStep(Flt(3, 1)) \/ WrongKeyStep(Str(<<"1">>))
      \/ v.t = "pmap" /\ (KeyStep(Str(<<"a">>), "a") \/ KeyStep(Id("ka"), "a") \/ FieldStep("Name"))
      \/ v.t = "map" /\ \/ KeyStep(Str(<<"a">>), "a") \/ KeyStep(Str(<<"z", "z">>), "zz")
                        \/ KeyStep(Id("ka"), "a") \/ KeyStep(Id("kz"), "zz")
@@ -118,8 +126,8 @@ Expect(u) ==
   LET r == Res(u) IN
   IF v # Failed /\ v.t \in {"unspecv", "pmap", "pslice"} THEN [k |-> "unspec"]
   ELSE IF v = Failed \/ v.t = "nil" THEN [k |-> "errorempty", base |-> <<"[", "]">>]
-  ELSE IF u = "iter" /\ v.t \notin {"arr", "map"} THEN [k |-> "errorempty", base |-> <<"[", "]">>]
-  ELSE IF u = "iter" /\ (v.t = "map" \/ \E i \in 1..Len(v.xs) : v.xs[i].t # "str") THEN [k |-> "unspec"]
+  ELSE IF u = "iter" /\ v.t \notin {"arr", "map", "imap"} THEN [k |-> "errorempty", base |-> <<"[", "]">>]
+  ELSE IF u = "iter" /\ (v.t \in {"map", "imap"} \/ \E i \in 1..Len(v.xs) : v.xs[i].t # "str") THEN [k |-> "unspec"]
   ELSE IF u # "iter" /\ v.t # "str" THEN [k |-> "unspec"]                  \* not a leaf: printed form unspecified
   ELSE IF r.k = "out" THEN [k |-> "out", pieces |-> r.pieces, log |-> <<>>]
   ELSE [k |-> "modelgap"]
